@@ -12,9 +12,12 @@
 (* Actions: Rebase(to) - allowed exactly between Cartesian and cylindrical   *)
 (* and between Cartesian and spherical (and onto the current system);        *)
 (* cylindrical <-> spherical is REFUSED (state unchanged, logged);           *)
-(* Scale(k) multiplies the Cartesian data of vector a.  Dot product,         *)
-(* squared magnitude and the value of the field at the physical point are    *)
-(* functions of the Cartesian data alone, so they cannot depend on repr.     *)
+(* Scale(k) multiplies the Cartesian data of vector a by a rational k that   *)
+(* may be NEGATIVE or fractional (a = num / den, |a| = magn / den are kept    *)
+(* as integers over a common denominator).  Dot product, magnitude (which is  *)
+(* never negative), unit vector, projection onto b and the value of the       *)
+(* field at the physical point are functions of the Cartesian data alone, so  *)
+(* they cannot depend on repr.                                                *)
 (* `path` is a history variable on purpose: the behaviours are the test      *)
 (* inputs replayed into the real Vector.rebase / ScalarField.rebase /        *)
 (* scale_vector / dot_vectors / vector_magnitude (harness/c11.py), with the  *)
@@ -27,12 +30,17 @@ CONSTANTS MaxDepth,      \* length of the emitted paths
           Octants,       \* subset of 1..8: sign patterns applied to the base points
           PartnerIdx,    \* the second vector b is the image of this base point in the octant after a's (vector mode)
           MaxDegree,     \* field mode: all monomials x^i y^j z^k with i + j + k <= MaxDegree
-          Scales         \* set of positive integers for Scale(k); {} disables the action
+          Scales         \* subset of DOMAIN ScaleTable: the factors offered to Scale; {} disables the action
 
-VARIABLES obj, a, b, repr, path, start
-vars == <<obj, a, b, repr, path, start>>
+\* a = num / den: the Cartesian components of vector a (field mode: the physical point, den = 1);
+\* magn / den = |a| (vector mode; Pythagorean points have integer length)
+VARIABLES obj, a, den, magn, b, repr, path, start
+vars == <<obj, a, den, magn, b, repr, path, start>>
 
 Reprs == {"cart", "cyl", "sph"}
+
+\* scale factors <<numerator, denominator>>: positive, negative and fractional
+ScaleTable == << <<2, 1>>, <<-2, 1>>, <<1, 2>>, <<-1, 2>>, <<3, 1>>, <<-1, 1>>, <<-3, 1>> >>
 
 \* x^2 + y^2 and x^2 + y^2 + z^2 are perfect squares: every trigonometric value of the cylindrical and
 \* spherical angles of these points (and of their sign variants) is rational, so the real library computes
@@ -58,10 +66,18 @@ Dot3(p, q)  == p[1] * q[1] + p[2] * q[2] + p[3] * q[3]
 MagSq3(p)   == Dot3(p, p)
 Scale3(k, p) == <<k * p[1], k * p[2], k * p[3]>>
 MonoValue(p, e) == IPow(p[1], e[1]) * IPow(p[2], e[2]) * IPow(p[3], e[3])
+Length(p)   == CHOOSE r \in 0..500 : r * r = MagSq3(p)          \* of a Pythagorean point
 
-\* what must be observable in the current state
+\* what must be observable in the current state (rationals as normalised <<n, d>>)
 Observation ==
-  IF obj = "vector" THEN [a |-> a, b |-> b, dot |-> Dot3(a, b), msq |-> MagSq3(a)]
+  IF obj = "vector"
+  THEN [a    |-> [i \in 1..3 |-> Norm(a[i], den)],
+        b    |-> b,
+        dot  |-> Norm(Dot3(a, b), den),                           \* a . b
+        msq  |-> Norm(MagSq3(a), den * den),                      \* |a|^2
+        mag  |-> Norm(magn, den),                                 \* |a| >= 0 whatever the sign of the scale factors
+        unit |-> [i \in 1..3 |-> Norm(a[i], magn)],               \* a / |a|
+        proj |-> [i \in 1..3 |-> Norm(Dot3(a, b) * b[i], den * MagSq3(b))]]   \* (a.b / b.b) b
   ELSE [value |-> MonoValue(a, b),
         \* applying the field to a point of kind k: the value, or refused when k is not the field's system
         apply |-> [k \in Reprs |-> IF k = repr THEN "value" ELSE "refused"]]
@@ -72,46 +88,56 @@ Step(act, arg, ok) == [act |-> act, arg |-> arg, ok |-> ok, repr |-> repr', obs 
 Init == /\ obj = Object
         /\ repr \in Reprs
         /\ path = <<>>
+        /\ den = 1
         /\ \E p \in BasePoints, o \in Octants :
              /\ a = Signed(p, o)
-             /\ IF Object = "vector" THEN b = Signed(Partner, (o % 8) + 1) ELSE b \in Monomials
+             /\ IF Object = "vector" THEN b = Signed(Partner, (o % 8) + 1) /\ magn = Length(p)
+                                     ELSE b \in Monomials /\ magn = 0
         /\ start = [repr |-> repr, a |-> a, b |-> b, obs |-> Observation]
 
 Rebase(to) ==
   /\ Len(path) < MaxDepth
-  /\ UNCHANGED <<obj, a, b, start>>                \* the geometric object is not touched
+  /\ UNCHANGED <<obj, a, den, magn, b, start>>    \* the geometric object is not touched
   /\ IF Allowed(repr, to) THEN repr' = to ELSE repr' = repr
   /\ path' = Append(path, Step("rebase", to, Allowed(repr, to)))
 
-Scale(k) ==
+Scale(i) ==
+  LET k == ScaleTable[i] IN
   /\ obj = "vector" /\ Len(path) < MaxDepth
-  /\ a' = Scale3(k, a) /\ UNCHANGED <<obj, b, repr, start>>
-  /\ path' = Append(path, Step("scale", ToString(k), TRUE))
+  /\ a' = Scale3(k[1], a) /\ den' = k[2] * den /\ magn' = AbsI(k[1]) * magn
+  /\ UNCHANGED <<obj, b, repr, start>>
+  /\ path' = Append(path, Step("scale", ToString(k[1]) \o "/" \o ToString(k[2]), TRUE))
 
-Next == (\E to \in Reprs : Rebase(to)) \/ (\E k \in Scales : Scale(k))
+Next == (\E to \in Reprs : Rebase(to)) \/ (\E i \in Scales : Scale(i))
 Spec == Init /\ [][Next]_vars
 
 -----------------------------------------------------------------------------
 (* Properties of the model.                                                  *)
 TypeOK == /\ obj \in {"vector", "field"} /\ repr \in Reprs /\ Len(path) <= MaxDepth
           /\ \A i \in 1..3 : a[i] \in Int /\ b[i] \in Int
+          /\ den \in Nat \ {0} /\ magn \in Nat
 
 LastIsRebase == path' # path /\ path'[Len(path')].act = "rebase"
 \* re-expression never changes the geometric object, hence no observation
 Geo == IF obj = "vector" THEN Observation ELSE Observation.value
-RebasePreservesObject == [][LastIsRebase => (a' = a /\ b' = b /\ Geo' = Geo)]_vars
+RebasePreservesObject == [][LastIsRebase => (a' = a /\ den' = den /\ magn' = magn /\ b' = b /\ Geo' = Geo)]_vars
 \* a refused transformation changes nothing, and cylindrical <-> spherical is never answered
-RefusalIsInert == [][(path' # path /\ ~path'[Len(path')].ok) => (repr' = repr /\ a' = a /\ b' = b)]_vars
+RefusalIsInert == [][(path' # path /\ ~path'[Len(path')].ok) => (repr' = repr /\ a' = a /\ den' = den /\ b' = b)]_vars
 NoDirectCylSph == [][~(repr = "cyl" /\ repr' = "sph") /\ ~(repr = "sph" /\ repr' = "cyl")]_vars
-\* the values are those of the Cartesian data: symmetric, bilinear in the scale factor
+\* scaling is linear in the Cartesian data: the dot product scales by k, the magnitude by |k|
 ScaleIsLinear == [][(path' # path /\ path'[Len(path')].act = "scale") =>
-                      \E k \in Scales : Dot3(a', b') = k * Dot3(a, b) /\ MagSq3(a') = k * k * MagSq3(a)]_vars
+                      \E i \in Scales : LET k == ScaleTable[i] IN
+                         /\ Dot3(a', b') = k[1] * Dot3(a, b) /\ den' = k[2] * den
+                         /\ magn' = AbsI(k[1]) * magn]_vars
+\* the magnitude is the non-negative root of a . a, and the unit vector has length one
+MagnitudeIsNorm == obj = "vector" => magn > 0 /\ magn * magn = MagSq3(a)
 \* a field refuses exactly the points of the other two kinds
 FieldAppliesToOwnPoints ==
   obj = "field" => \A k \in Reprs : (Observation.apply[k] = "value") = (k = repr)
 \* points are away from the coordinate singularities (x = y = 0) and all numbers stay far below 2^31
 AwayFromAxis == a[1] # 0 \/ a[2] # 0
-Small32 == \A i \in 1..3 : AbsI(a[i]) < 30000 /\ AbsI(b[i]) < 30000
+Small32 == /\ \A i \in 1..3 : AbsI(a[i]) < 20000 /\ AbsI(b[i]) < 200
+           /\ den <= 64
 
 -----------------------------------------------------------------------------
 (* Emission of the maximal paths (spec -> code).                             *)
